@@ -549,6 +549,10 @@ def mk_location(parts, fuzzy=False, operator="join"):
     elif fuzzy == "oneof":
         locs = [FeatureLocation(OneOfPosition(a, [ExactPosition(a), ExactPosition(min(a + 1, b))]),
                                 OneOfPosition(b, [ExactPosition(max(b - 1, a)), ExactPosition(b)]), strand=s) for (a, b, s) in parts]
+    elif fuzzy == "mixedref":
+        # GenBank `join(J00194.1:2..3,a..b,...)`: the first part lies on ANOTHER record (it denotes nothing here and does not move
+        # with this record); the others are ordinary local parts
+        locs = [FeatureLocation(1, 3, strand=parts[0][2], ref="J00194.1")] + [FeatureLocation(a, b, strand=s) for (a, b, s) in parts]
     else:
         locs = [FeatureLocation(a, b, strand=s) for (a, b, s) in parts]
     return locs[0] if len(locs) == 1 else CompoundLocation(locs, operator)
@@ -577,7 +581,7 @@ def qualifiers_for(fid):
 def mk_feature(parts, type="misc_feature", fid="f", qualifiers=None):
     """feature types starting with `fuzzy_` get fuzzy end points, types starting with `ordered_` an order(...) location"""
     q = qualifiers_for(fid) if qualifiers is None else qualifiers
-    fuzzy = type.split("_", 1)[0] if type.split("_", 1)[0] in ("fuzzy", "within", "between", "oneof") else False
+    fuzzy = type.split("_", 1)[0] if type.split("_", 1)[0] in ("fuzzy", "within", "between", "oneof", "mixedref") else False
     loc = mk_location(parts, fuzzy=fuzzy, operator="order" if type.startswith("ordered_") else "join")
     return SeqFeature(loc, type=type, id=fid, qualifiers=q)
 
@@ -631,8 +635,9 @@ def prime(classes=None):
     for c in classes:
         try:
             c._regex = DNARegex(c.structure())
-        except (NotImplementedError, TypeError, RuntimeError):
-            pass            # a class without a structure of its own (abstract): nothing to compile
+        except Exception:
+            pass            # a class whose structure cannot be had (abstract, or refused by the library itself): nothing to compile;
+                            # the checks then see what the library answers for it
     return classes
 
 
